@@ -43,7 +43,7 @@ def judge(ctx, traces, label, stale=False, ctxdev=False, workers=None, skip=()):
     wd = T.workdir("tc")
     try:
         order = sorted(range(len(traces)), key=lambda i: -len(traces[i]))
-        nproc = max(1, min(10, len(traces), (sum(len(t) for t in traces) // 15000) + 1))
+        nproc = max(1, min(14, len(traces), (sum(len(t) for t in traces) // 6000) + 1))
         chunks = [[] for _ in range(nproc)]
         load = [0] * nproc
         for i in order:
